@@ -43,8 +43,9 @@ def run(tier, seed, replay):
             return v.finish()
         raise vlib.MachineryError("C14 harness failed:\n" + gout[-3000:])
     rows = vlib.read_ndjson(obs)
-    if not replay and len(rows) != ncases * reps:
-        raise vlib.MachineryError("harness ran %d of %d cases" % (len(rows), ncases * reps))
+    # every case is presented twice to one middleware instance (second time with the same cached TokenInfo)
+    if not replay and len(rows) != ncases * reps * 2:
+        raise vlib.MachineryError("harness ran %d of %d cases" % (len(rows), ncases * reps * 2))
     fails, mres = vlib.run_monitor("BearerMon", "BearerMon.cfg", obs)
     v.add_tlc("BearerMon", mres)
     v.cov["traces_validated_against_impl"] = len(rows)
